@@ -202,6 +202,7 @@ theorem close_rolls_back_all {c : Conn} {s : Spec} (h : Sim c s) :
         simp only [Conn.tClose, sim_root_isRoot h hr, if_true]
         rw [← hok]
       simp only [Conn.close, htr, e, andThen_ok]
+      exact releaseOrInterrupt_nofault _ _ h'.nofault
     have hact : c.act t = true := (h.rootOk t hr).2.2
     rw [hcl, hact]
     have hd := h'.dbapi
@@ -240,7 +241,9 @@ theorem close_rolls_back_all {c : Conn} {s : Spec} (h : Sim c s) :
         simp [Conn.release, hd, DB.checkin, hrs, takeFault_nil _ _ hnf, DB.commit, hidle, hwork', hsv]
   | none =>
     have htr : c.transaction = none := by rw [h.root, hr]
-    have hcl : c.close = (c.release false, .ok) := by simp [Conn.close, htr]
+    have hcl : c.close = (c.release false, .ok) := by
+      simp only [Conn.close, htr]
+      exact releaseOrInterrupt_nofault _ _ h.nofault
     rw [hcl]
     have hd := h.dbapi
     have hnf := h.nofault
